@@ -5,6 +5,7 @@
   class's members, recursively), or a list of such for an array.
 -/
 import Proofs.HierSafe
+import SpyneModel.HierFile
 import Props.Facts08Good
 import SpyneModel.Generated.Facts02
 namespace SpyneModel.Props.C04hier
@@ -39,6 +40,24 @@ theorem hier_request_sound (cfg : Cfg) (hs : cfg.validator = .soft) (R : Registr
   rw [h] at this
   exact this (by simp [Cfg.soft, hs])
 
+/-- the object form of a `File` value is read with the validator of the protocol -/
+theorem facts02_file : facts02.fileFormValidated = true := by decide
+
+/-- **File.** A `File` argument or member sent in object form (`{"name": …, "type": …, "data": …}`, a positional list
+    under `complex_as=list`, inside its `FileValue` wrapper without `ignore_wrappers`) is read by `_doc_to_object` as an
+    object of class `File.Value` under the protocol's validator: whatever document stands there, soft validation either
+    faults or builds a `File.Value` whose `name` and `type` are text (or None) and whose `data` is bytes (or None).
+    As a member of another class the same holds by `hier_decode_sound` at the type that has `fileValueTy o` in the
+    member's place. -/
+theorem hier_file_object_form_sound (cfg : Cfg) (hs : cfg.validator = .soft) (R : Registry) (hR : regWf R)
+    (o : Occ) (ho : occWf o = true) (d : Doc) (v : Val) (l : Bool)
+    (h : decodeFileObj facts08 facts02 cfg R o d = .ok v l) : l = false ∧ hasTyOne R (fileValueTy o) v = true := by
+  have hwf : wfTy (fileValueTy o) = true := by
+    simp only [fileValueTy, wfTy, ho, Bool.true_and, Bool.and_eq_true]
+    exact ⟨by decide, by decide⟩
+  simp only [decodeFileObj, facts02_file, if_true] at h
+  exact hier_decode_sound cfg hs R hR (fileValueTy o) hwf d v l h
+
 /-- A wrapper key can only select the declared class or a registered subclass of it: any other key — the name of an
     unrelated class of the interface included — is answered with a validation fault when the declared class has
     subclasses (with no subclasses the key is not looked at and the declared class is used). -/
@@ -68,5 +87,11 @@ example : (decode facts08 facts02 exCfg exReg exBaseTy
 example : (decode facts08 facts02 exCfg exReg exBaseTy
     (.map [(.str "Other".toList, .map [(.str "x".toList, .bool true)])])).isFault = true := by decide +kernel
 example : wfTy exBaseTy = true := by decide
+
+/-- `{"name": 5}` for a File under soft validation is a fault; `{"name": "a.txt"}` builds a `File.Value` -/
+example : (decodeFileObj facts08 facts02 ⟨.json, .soft, true, .dict, false⟩ [] {}
+    (.map [(.str "name".toList, .int 5)])).isFault = true := by decide +kernel
+example : (decodeFileObj facts08 facts02 ⟨.json, .soft, true, .dict, false⟩ [] {}
+    (.map [(.str "name".toList, .str "a.txt".toList)])).okClass = some fileValueName := by decide +kernel
 
 end SpyneModel.Props.C04hier
